@@ -7,7 +7,7 @@ N=16; STEP=$(( (TO-FROM+N-1)/N ))
 for w in $(seq 0 $((N-1))); do
   a=$((FROM+w*STEP)); b=$((a+STEP)); [ $b -gt $TO ] && b=$TO
   [ $a -ge $TO ] && continue
-  (cd /tmp && VERIF_TIER=${TIER:-quick} VERIF_SEED=$SEED VERIF_MODE=batch VERIF_PROFILE=$P VERIF_FROM=$a VERIF_TO=$b VERIF_REPLAY_DIR=/tmp/rp_$P /verif/bin/sim.test -test.run TestWorker -test.cpu 1 -test.timeout 6h > /tmp/out_$P.$w.txt 2>&1) &
+  (cd /tmp && VERIF_TIER=${TIER:-quick} VERIF_SEED=$SEED VERIF_MODE=batch VERIF_PROFILE=$P VERIF_FROM=$a VERIF_TO=$b VERIF_REPLAY_DIR=/tmp/rp_$P ${SIMBIN:-/verif/bin/sim.test} -test.run TestWorker -test.cpu 1 -test.timeout 6h > /tmp/out_$P.$w.txt 2>&1) &
 done
 wait
 cat /tmp/out_$P.*.txt > /tmp/out_$P.txt; rm -f /tmp/out_$P.*.txt
